@@ -522,4 +522,449 @@ theorem ths_run {n : Node} (hI : Inv n) (hT : THs n) (ops : List Op) : THs (n.ru
   | nil => exact hT
   | cons o os ih => exact ih (inv_step hI o) (ths_step hI hT o)
 
+/-! ### sums over HTLC sets -/
+
+abbrev HKey := Bool × Nat × Nat
+
+def ksum (ks : List HKey) : Nat := sumBy (fun k => k.2.2) ks
+
+theorem ksum_append (a b : List HKey) : ksum (a ++ b) = ksum a + ksum b := sumBy_append _ _ _
+
+theorem sum_htlcs_keys (p : HKey → Bool) (hs : List Htlc) :
+    sumBy Htlc.amt (hs.filter (fun h => p (hkey h))) = ksum ((hs.map hkey).filter p) := by
+  unfold ksum
+  induction hs with
+  | nil => rfl
+  | cons h t ih =>
+    simp only [List.filter, List.map_cons]
+    cases hp : p (hkey h)
+    · simpa using ih
+    · simp only [sumBy, ih]; rfl
+
+theorem ksum_entries (inc : Bool) (q : Entry → Bool) (p : HKey → Bool) (E : List Entry) :
+    ksum (((E.filter q).map (ekey inc)).filter p) =
+      sumBy Entry.amt (E.filter (fun e => q e && p (ekey inc e))) := by
+  unfold ksum
+  induction E with
+  | nil => rfl
+  | cons e t ih =>
+    simp only [List.filter]
+    cases hq : q e
+    · simpa using ih
+    · simp only [List.map_cons, List.filter, Bool.true_and]
+      cases hp : p (ekey inc e) <;> simp [sumBy, ih, ekey]
+
+theorem filter_keys_wrong_dir (inc : Bool) (l : List Entry) (p : HKey → Bool) (hp : ∀ k, k.1 = inc → p k = false) :
+    ((l.map (ekey inc)).filter p) = [] := by
+  apply List.filter_eq_nil_iff.mpr
+  intro k hk
+  obtain ⟨e, _, rfl⟩ := List.mem_map.mp hk
+  rw [hp _ rfl]; simp
+
+/-- membership of an outgoing key among the keys the logs put on chain `c`. -/
+theorem mem_spec_out {c : Chain} {EL ER : List Entry} (hu : UniqueAdds EL) {e : Entry} (he : e ∈ EL)
+    (hadd : e.isAdd = true) :
+    (specOf c EL ER).contains (ekey false e) = onLive c ER e := by
+  rw [Bool.eq_iff_iff]
+  simp only [List.contains_iff_mem, specOf, List.mem_append, List.mem_map, List.mem_filter]
+  constructor
+  · rintro (⟨e', ⟨he', hl⟩, hk⟩ | ⟨e', _, hk⟩)
+    · simp only [ekey, Prod.mk.injEq, true_and] at hk
+      have hadd' : e'.isAdd = true := by
+        simp only [onLive, Bool.and_eq_true] at hl; exact hl.1.1
+      have : e' = e := nodup_map_inj Entry.htlcIndex (adds EL) hu e' e
+        (List.mem_filter.mpr ⟨he', hadd'⟩) (List.mem_filter.mpr ⟨he, hadd⟩) hk.1
+      rw [← this]; exact hl
+    · simp [ekey] at hk
+  · intro hl
+    exact Or.inl ⟨e, ⟨he, hl⟩, rfl⟩
+
+theorem mem_spec_in {c : Chain} {EL ER : List Entry} (hu : UniqueAdds ER) {e : Entry} (he : e ∈ ER)
+    (hadd : e.isAdd = true) :
+    (specOf c EL ER).contains (ekey true e) = onLive c EL e := by
+  rw [Bool.eq_iff_iff]
+  simp only [List.contains_iff_mem, specOf, List.mem_append, List.mem_map, List.mem_filter]
+  constructor
+  · rintro (⟨e', _, hk⟩ | ⟨e', ⟨he', hl⟩, hk⟩)
+    · simp [ekey] at hk
+    · simp only [ekey, Prod.mk.injEq, true_and] at hk
+      have hadd' : e'.isAdd = true := by
+        simp only [onLive, Bool.and_eq_true] at hl; exact hl.1.1
+      have : e' = e := nodup_map_inj Entry.htlcIndex (adds ER) hu e' e
+        (List.mem_filter.mpr ⟨he', hadd'⟩) (List.mem_filter.mpr ⟨he, hadd⟩) hk.1
+      rw [← this]; exact hl
+  · intro hl
+    exact Or.inr ⟨e, ⟨he, hl⟩, rfl⟩
+
+
+/-- (G1) the HTLCs of the new commitment that were not on the old one are exactly the not yet
+    committed live adds of the view. -/
+theorem added_sum {c : Chain} {E O : List Entry} {iE iO : Nat} (inc : Bool) (oldKeys : List HKey)
+    (covO : ∀ e ∈ O, e.onChain c = true → e.logIndex < iO)
+    (hmem : ∀ e ∈ E, e.isAdd = true → oldKeys.contains (ekey inc e) = onLive c O e) :
+    ksum (((liveAdds (E.filter (fun e => decide (e.logIndex < iE)))
+        (resolutions (O.filter (fun e => decide (e.logIndex < iO))))).map (ekey inc)).filter
+          (fun k => !oldKeys.contains k)) =
+      addDebit c (liveAdds (E.filter (fun e => decide (e.logIndex < iE)))
+        (resolutions (O.filter (fun e => decide (e.logIndex < iO))))) := by
+  unfold liveAdds addDebit
+  rw [List.filter_filter, ksum_entries, List.filter_filter]
+  apply sumBy_filter_congr
+  intro e he
+  cases hlt : decide (e.logIndex < iE)
+  · simp
+  · cases hadd : e.isAdd
+    · simp
+    · cases hsk : ((resolutions (O.filter (fun e => decide (e.logIndex < iO)))).map Entry.parent).contains e.htlcIndex
+      · simp only [Bool.not_false, Bool.and_true, Bool.true_and]
+        rw [hmem e he hadd]
+        simp only [onLive, hadd, Bool.true_and]
+        by_cases h0 : e.addH c = 0
+        · simp [h0]
+        · have hnr : resolvedOn c O e.htlcIndex = false := by
+            apply Bool.eq_false_iff.mpr
+            intro hr
+            obtain ⟨r, hrO, hres, hpar, hne⟩ := resolvedOn_iff.mp hr
+            have hlt' := covO r hrO (by simp [Entry.onChain, hne])
+            have : e.htlcIndex ∈ (resolutions (O.filter (fun e => decide (e.logIndex < iO)))).map Entry.parent := by
+              rw [← hpar]
+              apply List.mem_map_of_mem
+              exact List.mem_filter.mpr ⟨List.mem_filter.mpr ⟨hrO, by simpa using hlt'⟩, hres⟩
+            simp [this] at hsk
+          simp [h0, hnr, bne]
+      · simp
+
+/-- (G2) the HTLCs of the old commitment that are gone from the new one and whose resolution
+    satisfies `T` carry exactly the amounts of the newly committed resolutions satisfying `T`. -/
+theorem removed_sum {c : Chain} {own other : Log} {iE iO : Nat} (inc : Bool) (newKeys : List HKey)
+    (T : Entry → Bool)
+    (hE : LogOK own other) (hO : LogOK other own)
+    (covE : ∀ e ∈ own.entries, e.onChain c = true → e.logIndex < iE)
+    (hp : parentsOk c own.entries (resolutions (viewOf other iO)) = true)
+    (hnew : ∀ e ∈ own.entries, e.isAdd = true → newKeys.contains (ekey inc e) =
+      (decide (e.logIndex < iE) && !((resolutions (viewOf other iO)).map Entry.parent).contains e.htlcIndex)) :
+    ksum (((own.entries.filter (onLive c other.entries)).map (ekey inc)).filter
+      (fun k => !newKeys.contains k &&
+        (((resolutions other.entries).filter T).map Entry.parent).contains k.2.1)) =
+    sumBy Entry.amt ((newRes c (viewOf other iO)).filter T) := by
+  rw [ksum_entries]
+  have hsk := sum_skipped (adds own.entries) ((newRes c (viewOf other iO)).filter T) hE.uniq
+    (by
+      have : ((newRes c (viewOf other iO)).filter T).Sublist (resolutions other.entries) := by
+        unfold newRes resolutions viewOf
+        exact (List.filter_sublist.trans List.filter_sublist).trans (List.Sublist.filter _ List.filter_sublist)
+      exact List.Nodup.sublist (List.Sublist.map _ this) hO.resPar)
+    (by
+      intro r hr
+      have hr1 := (List.mem_filter.mp hr).1
+      have hr2 := (List.mem_filter.mp hr1).1
+      have hr3 := List.mem_filter.mp hr2
+      have hr4 := (List.mem_filter.mp hr3.1).1
+      obtain ⟨a, ha, hadd, hi, hamt, _⟩ := hO.resAdd r hr4 hr3.2
+      exact ⟨a, List.mem_filter.mpr ⟨ha, hadd⟩, hi, hamt⟩)
+  rw [← hsk]
+  unfold adds
+  rw [List.filter_filter]
+  apply sumBy_filter_congr
+  intro e he
+  cases hadd : e.isAdd
+  · simp [onLive, hadd]
+  · simp only [Bool.and_true, ekey]
+    rw [show newKeys.contains (inc, e.htlcIndex, e.amt) = newKeys.contains (ekey inc e) from rfl, hnew e he hadd]
+    rw [Bool.eq_iff_iff]
+    constructor
+    · intro hall
+      simp only [Bool.and_eq_true] at hall
+      have hl := hall.1
+      have hnn := hall.2.1
+      have hcon := hall.2.2
+      have hmem : e.htlcIndex ∈ ((resolutions other.entries).filter T).map Entry.parent := by simpa using hcon
+      obtain ⟨r, hrT, hpar⟩ := List.mem_map.mp hmem
+      have hrres := (List.mem_filter.mp hrT).1
+      have hT := (List.mem_filter.mp hrT).2
+      have hrO := (List.mem_filter.mp hrres).1
+      have hresr := (List.mem_filter.mp hrres).2
+      simp only [onLive, hadd, Bool.true_and, Bool.and_eq_true, bne_iff_ne, ne_eq, Bool.not_eq_true'] at hl
+      have hin : e.logIndex < iE := covE e he (by simp [Entry.onChain, hl.1])
+      -- the resolution in the view is `r`
+      have hsk' : e.htlcIndex ∈ (resolutions (viewOf other iO)).map Entry.parent := by
+        cases hc2 : ((resolutions (viewOf other iO)).map Entry.parent).contains e.htlcIndex
+        · rw [hc2] at hnn; simp [hin] at hnn
+        · simpa using hc2
+      obtain ⟨r', hr', hpar'⟩ := List.mem_map.mp hsk'
+      have hr'res := List.mem_filter.mp hr'
+      have hr'O := (List.mem_filter.mp hr'res.1).1
+      have : r' = r := nodup_map_inj Entry.parent (resolutions other.entries) hO.resPar r' r
+        (List.mem_filter.mpr ⟨hr'O, hr'res.2⟩) hrres (by rw [hpar', hpar])
+      subst this
+      have h0 : r'.rmvH c = 0 := by
+        by_cases hne : r'.rmvH c = 0
+        · exact hne
+        · have : resolvedOn c other.entries e.htlcIndex = true :=
+            resolvedOn_iff.mpr ⟨r', hrO, hresr, hpar, hne⟩
+          rw [this] at hl; exact absurd hl.2 (by simp)
+      have : e.htlcIndex ∈ ((newRes c (viewOf other iO)).filter T).map Entry.parent := by
+        rw [← hpar]
+        apply List.mem_map_of_mem
+        apply List.mem_filter.mpr
+        refine ⟨?_, hT⟩
+        unfold newRes
+        exact List.mem_filter.mpr ⟨hr', by simp [h0]⟩
+      simpa using this
+    · intro hcon
+      have hmem : e.htlcIndex ∈ ((newRes c (viewOf other iO)).filter T).map Entry.parent := by simpa using hcon
+      obtain ⟨r, hrT, hpar⟩ := List.mem_map.mp hmem
+      have hrn := (List.mem_filter.mp hrT).1
+      have hT := (List.mem_filter.mp hrT).2
+      unfold newRes at hrn
+      have hrv := (List.mem_filter.mp hrn).1
+      have h0 : r.rmvH c = 0 := by simpa using (List.mem_filter.mp hrn).2
+      have hrres := List.mem_filter.mp hrv
+      have hrO := (List.mem_filter.mp hrres.1).1
+      obtain ⟨a, hl, hne⟩ := parentsOk_spec hp hrv
+      have hae : a = e := lookupHtlc_unique hE.uniq hl he hadd hpar.symm
+      subst hae
+      have hnr : resolvedOn c other.entries a.htlcIndex = false := by
+        apply Bool.eq_false_iff.mpr
+        intro hr
+        obtain ⟨r2, hr2O, hres2, hpar2, hne2⟩ := resolvedOn_iff.mp hr
+        have : r2 = r := nodup_map_inj Entry.parent (resolutions other.entries) hO.resPar r2 r
+          (List.mem_filter.mpr ⟨hr2O, hres2⟩) (List.mem_filter.mpr ⟨hrO, hrres.2⟩) (by rw [hpar2, hpar])
+        subst this
+        exact hne2 h0
+      have hin : a.logIndex < iE := covE a he (by simp [Entry.onChain, hne])
+      have hsk' : a.htlcIndex ∈ (resolutions (viewOf other iO)).map Entry.parent := by
+        rw [← hpar]; exact List.mem_map_of_mem hrv
+      have hf : (((resolutions other.entries).filter T).map Entry.parent).contains a.htlcIndex = true := by
+        have : a.htlcIndex ∈ ((resolutions other.entries).filter T).map Entry.parent := by
+          rw [← hpar]
+          exact List.mem_map_of_mem (List.mem_filter.mpr ⟨List.mem_filter.mpr ⟨hrO, hrres.2⟩, hT⟩)
+        simpa using this
+      have hc3 : ((resolutions (viewOf other iO)).map Entry.parent).contains a.htlcIndex = true := by simpa using hsk'
+      rw [hc3, hf]
+      simp [onLive, hadd, hne, hnr, hin]
+
+
+/-! ### balance moves over the HTLC sets of consecutive commitments -/
+
+/-- `h` is (by identity and amount) one of the HTLCs `hs`. -/
+def hasHtlc (hs : List Htlc) (h : Htlc) : Bool := (hs.map hkey).contains (hkey h)
+/-- HTLC `idx` has a fail / malformed-fail (resp. a settle) among the resolutions of `log`. -/
+def failedIn (log : List Entry) (idx : Nat) : Bool :=
+  (((resolutions log).filter (fun r => r.ty != .settle)).map Entry.parent).contains idx
+def settledIn (log : List Entry) (idx : Nat) : Bool :=
+  (((resolutions log).filter (fun r => r.ty == .settle)).map Entry.parent).contains idx
+def amtOf (hs : List Htlc) : Nat := sumBy Htlc.amt hs
+
+theorem live_mem_keys {inc : Bool} {E rs : List Entry} {i : Nat} (hu : UniqueAdds E) {e : Entry} (he : e ∈ E)
+    (hadd : e.isAdd = true) :
+    ((liveAdds (E.filter (fun e => decide (e.logIndex < i))) rs).map (ekey inc)).contains (ekey inc e) =
+      (decide (e.logIndex < i) && !(rs.map Entry.parent).contains e.htlcIndex) := by
+  rw [Bool.eq_iff_iff]
+  simp only [List.contains_iff_mem, List.mem_map, liveAdds, List.mem_filter, Bool.and_eq_true]
+  constructor
+  · rintro ⟨e', ⟨⟨he', hlt⟩, hadd', hns⟩, hk⟩
+    simp only [ekey, Prod.mk.injEq, true_and] at hk
+    have : e' = e := nodup_map_inj Entry.htlcIndex (adds E) hu e' e
+      (List.mem_filter.mpr ⟨he', hadd'⟩) (List.mem_filter.mpr ⟨he, hadd⟩) hk.1
+    rw [← this]; exact ⟨hlt, hns⟩
+  · rintro ⟨hlt, hns⟩
+    exact ⟨e, ⟨⟨he, hlt⟩, hadd, hns⟩, rfl⟩
+
+theorem not_mem_other_dir (inc : Bool) (l : List Entry) (e : Entry) :
+    (l.map (ekey (!inc))).contains (ekey inc e) = false := by
+  apply Bool.eq_false_iff.mpr
+  intro h
+  have : ekey inc e ∈ l.map (ekey (!inc)) := by simpa using h
+  obtain ⟨x, _, hx⟩ := List.mem_map.mp this
+  cases inc <;> simp [ekey] at hx
+
+/-- one side of `balance_moves` over HTLC sets.  `E`/`O` = the log whose adds are the HTLCs in
+    question / the log holding their resolutions; `inc` = whether those HTLCs are incoming. -/
+theorem side_sums {n : Node} {c : Chain} {iL iR : Nat} {cm : Commit} {n' : Node} (hI : Inv n) (hT : TH n c)
+    (covL : ∀ e ∈ n.logL.entries, e.onChain c = true → e.logIndex < iL)
+    (covR : ∀ e ∈ n.logR.entries, e.onChain c = true → e.logIndex < iR)
+    {hL hR : Nat} (hf : fetchCommitmentView n c iL hL iR hR = .ok (cm, n')) :
+    let old := (n.chain c).tip
+    -- outgoing HTLCs
+    amtOf (cm.htlcs.filter (fun h => !h.incoming && !hasHtlc old.htlcs h)) = newlyAdded c iL n.logL.entries ∧
+    amtOf (old.htlcs.filter (fun h => !h.incoming && !hasHtlc cm.htlcs h && failedIn n.logR.entries h.idx)) =
+      failCredit c (resolutions (viewOf n.logR iR)) ∧
+    amtOf (old.htlcs.filter (fun h => !h.incoming && !hasHtlc cm.htlcs h && settledIn n.logR.entries h.idx)) =
+      settleCredit c (resolutions (viewOf n.logR iR)) ∧
+    -- incoming HTLCs
+    amtOf (cm.htlcs.filter (fun h => h.incoming && !hasHtlc old.htlcs h)) = newlyAdded c iR n.logR.entries ∧
+    amtOf (old.htlcs.filter (fun h => h.incoming && !hasHtlc cm.htlcs h && failedIn n.logL.entries h.idx)) =
+      failCredit c (resolutions (viewOf n.logL iL)) ∧
+    amtOf (old.htlcs.filter (fun h => h.incoming && !hasHtlc cm.htlcs h && settledIn n.logL.entries h.idx)) =
+      settleCredit c (resolutions (viewOf n.logL iL)) := by
+  intro old
+  obtain ⟨r, hcv, _⟩ := fetch_ok_parts hf
+  have vf := computeView_ok hcv
+  have hnew := fetch_keys hf
+  have hold : old.htlcs.map hkey = specOf c n.logL.entries n.logR.entries := hT
+  have dL : addDebit c (liveAdds (viewOf n.logL iL) (resolutions (viewOf n.logR iR))) = newlyAdded c iL n.logL.entries :=
+    debit_eq iL hI.logL.uniq vf.pR
+  have dR : addDebit c (liveAdds (viewOf n.logR iR) (resolutions (viewOf n.logL iL))) = newlyAdded c iR n.logR.entries :=
+    debit_eq iR hI.logR.uniq vf.pL
+  -- credits as sums over the newly committed resolutions
+  have scr : ∀ v : List Entry, settleCredit c (resolutions v) = sumBy Entry.amt ((newRes c v).filter (fun r => r.ty == .settle)) := by
+    intro v; unfold settleCredit newRes; rw [List.filter_filter]
+  have fcr : ∀ v : List Entry, failCredit c (resolutions v) = sumBy Entry.amt ((newRes c v).filter (fun r => r.ty != .settle)) := by
+    intro v; unfold failCredit newRes; rw [List.filter_filter]
+  unfold amtOf hasHtlc
+  refine ⟨?_, ?_, ?_, ?_, ?_, ?_⟩
+  · -- added outgoing
+    refine Eq.trans (sum_htlcs_keys (fun k => !k.1 && !(old.htlcs.map hkey).contains k) _) ?_
+    rw [hnew, hold, List.filter_append, ksum_append,
+      filter_keys_wrong_dir true _ _ (by intro k hk; simp [hk]), ← dL]
+    have := added_sum (c := c) (E := n.logL.entries) (O := n.logR.entries) (iE := iL) (iO := iR) false
+      (specOf c n.logL.entries n.logR.entries) covR (fun e he ha => mem_spec_out hI.logL.uniq he ha)
+    unfold viewOf
+    rw [← this]
+    simp only [ksum, sumBy, Nat.add_zero]
+    congr 1
+    apply List.filter_congr
+    intro k hk
+    obtain ⟨e, _, rfl⟩ := List.mem_map.mp hk
+    simp [ekey]
+  · -- removed outgoing, failed
+    refine Eq.trans (sum_htlcs_keys (fun k => !k.1 && !(cm.htlcs.map hkey).contains k && failedIn n.logR.entries k.2.1) _) ?_
+    rw [hold]
+    unfold specOf
+    rw [List.filter_append, ksum_append, filter_keys_wrong_dir true _ _ (by intro k hk; simp [hk]), fcr]
+    have := removed_sum (c := c) (own := n.logL) (other := n.logR) (iE := iL) (iO := iR) false (cm.htlcs.map hkey)
+      (fun r => r.ty != .settle) hI.logL hI.logR covL vf.pR (by
+        intro e he ha
+        rw [hnew, List.contains_append]
+        have := not_mem_other_dir false (liveAdds (viewOf n.logR iR) (resolutions (viewOf n.logL iL))) e
+        simp only [Bool.not_false] at this
+        rw [this, Bool.or_false]
+        exact live_mem_keys hI.logL.uniq he ha)
+    rw [← this]
+    simp only [ksum, sumBy, Nat.add_zero]
+    congr 1
+    apply List.filter_congr
+    intro k hk
+    obtain ⟨e, _, rfl⟩ := List.mem_map.mp hk
+    simp [ekey, failedIn]
+  · -- removed outgoing, settled
+    refine Eq.trans (sum_htlcs_keys (fun k => !k.1 && !(cm.htlcs.map hkey).contains k && settledIn n.logR.entries k.2.1) _) ?_
+    rw [hold]
+    unfold specOf
+    rw [List.filter_append, ksum_append, filter_keys_wrong_dir true _ _ (by intro k hk; simp [hk]), scr]
+    have := removed_sum (c := c) (own := n.logL) (other := n.logR) (iE := iL) (iO := iR) false (cm.htlcs.map hkey)
+      (fun r => r.ty == .settle) hI.logL hI.logR covL vf.pR (by
+        intro e he ha
+        rw [hnew, List.contains_append]
+        have := not_mem_other_dir false (liveAdds (viewOf n.logR iR) (resolutions (viewOf n.logL iL))) e
+        simp only [Bool.not_false] at this
+        rw [this, Bool.or_false]
+        exact live_mem_keys hI.logL.uniq he ha)
+    rw [← this]
+    simp only [ksum, sumBy, Nat.add_zero]
+    congr 1
+    apply List.filter_congr
+    intro k hk
+    obtain ⟨e, _, rfl⟩ := List.mem_map.mp hk
+    simp [ekey, settledIn]
+  · -- added incoming
+    refine Eq.trans (sum_htlcs_keys (fun k => k.1 && !(old.htlcs.map hkey).contains k) _) ?_
+    rw [hnew, hold, List.filter_append, ksum_append,
+      filter_keys_wrong_dir false _ _ (by intro k hk; simp [hk]), ← dR]
+    have := added_sum (c := c) (E := n.logR.entries) (O := n.logL.entries) (iE := iR) (iO := iL) true
+      (specOf c n.logL.entries n.logR.entries) covL (fun e he ha => mem_spec_in hI.logR.uniq he ha)
+    unfold viewOf
+    rw [← this]
+    simp only [ksum, sumBy, Nat.zero_add]
+    congr 1
+    apply List.filter_congr
+    intro k hk
+    obtain ⟨e, _, rfl⟩ := List.mem_map.mp hk
+    simp [ekey]
+  · -- removed incoming, failed
+    refine Eq.trans (sum_htlcs_keys (fun k => k.1 && !(cm.htlcs.map hkey).contains k && failedIn n.logL.entries k.2.1) _) ?_
+    rw [hold]
+    unfold specOf
+    rw [List.filter_append, ksum_append, filter_keys_wrong_dir false _ _ (by intro k hk; simp [hk]), fcr]
+    have := removed_sum (c := c) (own := n.logR) (other := n.logL) (iE := iR) (iO := iL) true (cm.htlcs.map hkey)
+      (fun r => r.ty != .settle) hI.logR hI.logL covR vf.pL (by
+        intro e he ha
+        rw [hnew, List.contains_append]
+        have := not_mem_other_dir true (liveAdds (viewOf n.logL iL) (resolutions (viewOf n.logR iR))) e
+        simp only [Bool.not_true] at this
+        rw [this, Bool.false_or]
+        exact live_mem_keys hI.logR.uniq he ha)
+    rw [← this]
+    simp only [ksum, sumBy, Nat.zero_add]
+    congr 1
+    apply List.filter_congr
+    intro k hk
+    obtain ⟨e, _, rfl⟩ := List.mem_map.mp hk
+    simp [ekey, failedIn]
+  · -- removed incoming, settled
+    refine Eq.trans (sum_htlcs_keys (fun k => k.1 && !(cm.htlcs.map hkey).contains k && settledIn n.logL.entries k.2.1) _) ?_
+    rw [hold]
+    unfold specOf
+    rw [List.filter_append, ksum_append, filter_keys_wrong_dir false _ _ (by intro k hk; simp [hk]), scr]
+    have := removed_sum (c := c) (own := n.logR) (other := n.logL) (iE := iR) (iO := iL) true (cm.htlcs.map hkey)
+      (fun r => r.ty == .settle) hI.logR hI.logL covR vf.pL (by
+        intro e he ha
+        rw [hnew, List.contains_append]
+        have := not_mem_other_dir true (liveAdds (viewOf n.logL iL) (resolutions (viewOf n.logR iR))) e
+        simp only [Bool.not_true] at this
+        rw [this, Bool.false_or]
+        exact live_mem_keys hI.logR.uniq he ha)
+    rw [← this]
+    simp only [ksum, sumBy, Nat.zero_add]
+    congr 1
+    apply List.filter_congr
+    intro k hk
+    obtain ⟨e, _, rfl⟩ := List.mem_map.mp hk
+    simp [ekey, settledIn]
+
+theorem sign_ok_fetch {n n' : Node} {sv : Option SigView} (h : n.sign = (.ok, n', sv)) :
+    ∃ cm n1, sanity n n.chainL.tail.theirMsg n.logL.logIndex .rem .none [] [] = .ok ∧
+      fetchCommitmentView n .rem n.logL.logIndex n.logL.htlcCounter n.chainL.tail.theirMsg n.chainL.tail.theirHtlc = .ok (cm, n1) ∧
+      n'.chainR.tip = cm := by
+  unfold Node.sign at h
+  split at h
+  · simp at h
+  · simp only at h
+    split at h
+    · rename_i hs
+      split at h
+      · rename_i hfe
+        simp only [Prod.mk.injEq] at h
+        exact absurd h.1 (fetch_err hfe)
+      · rename_i cm n1 hf
+        simp only [Prod.mk.injEq, true_and] at h
+        obtain ⟨rfl, _⟩ := h
+        exact ⟨cm, n1, hs, hf, tip_push n1.chainR cm⟩
+    · rename_i hne
+      simp only [Prod.mk.injEq] at h
+      exact absurd h.1 (by intro e; exact hne e)
+
+theorem receiveCommit_ok_fetch {n n' : Node} {sv : SigView} (h : n.receiveCommit sv = (.ok, n')) :
+    ∃ cm n1, sanity n n.logR.logIndex n.chainR.tail.ourMsg .loc .none [] [] = .ok ∧
+      fetchCommitmentView n .loc n.chainR.tail.ourMsg n.chainR.tail.ourHtlc n.logR.logIndex n.logR.htlcCounter = .ok (cm, n1) ∧
+      n'.chainL.tip = cm := by
+  unfold Node.receiveCommit at h
+  simp only at h
+  split at h
+  · rename_i hs
+    split at h
+    · rename_i hfe
+      simp only [Prod.mk.injEq] at h
+      exact absurd h.1 (fetch_err hfe)
+    · rename_i cm n1 hf
+      split at h
+      · simp only [Prod.mk.injEq, true_and] at h
+        subst h
+        exact ⟨cm, n1, hs, hf, tip_push n1.chainL cm⟩
+      · simp at h
+  · rename_i hne
+    simp only [Prod.mk.injEq] at h
+    exact absurd h.1 (by intro e; exact hne e)
+
 end LndModel.C01
